@@ -56,9 +56,13 @@ def dedup (c : Clause) : Clause :=
 def resolveCanon (c1 c2 : Clause) (name : Nat) : Clause :=
   dedup (c1.filter (fun l => l.1 != name) ++ c2.filter (fun l => l.1 != name))
 
+def nodupLit : Clause → Bool
+  | [] => true
+  | x :: xs => !xs.contains x && nodupLit xs
+
 /-- `o` lists exactly the members of `c`, each once. -/
 def isArrangement (o c : Clause) : Bool :=
-  o.length == c.length && c.all o.contains && o.all c.contains
+  o.length == c.length && c.all o.contains && o.all c.contains && nodupLit o
 
 /-- Use the recorded order when it is an arrangement of the canonical result. -/
 def resolveWith (c1 c2 : Clause) (name : Nat) (o : Option Clause) : Clause :=
@@ -157,17 +161,12 @@ def analyze : Nat → CNF → Trail → List Nat → Clause → List Clause →
 
 def lvlOf (tr : Trail) (n : Nat) : Option Nat := (lookup tr n).map (·.lvl)
 
-/-- insertion sort (ascending), enough to read off the second largest level -/
-def insertSorted (x : Nat) : List Nat → List Nat
-  | [] => [x]
-  | y :: ys => if x ≤ y then x :: y :: ys else y :: insertSorted x ys
+def maxNat (l : List Nat) : Nat := l.foldl max 0
 
-def sortNat (l : List Nat) : List Nat := l.foldr insertSorted []
-
-/-- level of `sorted(clause, key=level)[-2]` -/
+/-- level of `sorted(clause, key=level)[-2]`: the largest level left when one copy of the largest
+is taken away -/
 def secondHighest (lvls : List Nat) : Option Nat :=
-  let s := sortNat lvls
-  if s.length < 2 then none else s[s.length - 2]?
+  if lvls.length < 2 then none else some (maxNat (lvls.erase (maxNat lvls)))
 
 def backtrackLevel (tr : Trail) (clause : Clause) : Except Err Nat :=
   match clause with
